@@ -427,6 +427,12 @@ func (bwu *BaseWorkUnit) MonitorLocalStatus() {
 	if err != nil {
 		fi = nil
 	}
+	// The file may have been rewritten between the caller's last Load and the start of this
+	// watch (a runner finishing while the daemon starts up).  Neither the watcher nor the
+	// modification-time comparison above would ever report that change, so read it once now.
+	if bwu.Load() == nil && IsComplete(bwu.Status().State) {
+		return
+	}
 
 loop:
 	for {
